@@ -53,6 +53,7 @@ CONSTANTS Clients,    \* local MQTT clients of node A
           MaxLost,    \* bound: failed handshakes (lost / openfail)
           MaxFailA,   \* bound: A sees B fail
           MaxFailB,   \* bound: B sees A fail
+          MaxOrd,     \* bound: steps whose outcome depends on the iteration order of a Go map with >= 2 entries
           Fixes       \* names of modelled repairs
 
 VARIABLES
@@ -109,7 +110,7 @@ Init ==
     /\ bpeer = TRUE /\ sess = NoSess /\ gen = 0 /\ view = {} /\ pubd = <<>> /\ bret = 0
     /\ pend = NoPend /\ zomb = NoPend
     /\ applied = <<>> /\ taint = {}
-    /\ bud = [emit |-> 0, msg |-> 0, brk |-> 0, lost |-> 0, failA |-> 0, failB |-> 0]
+    /\ bud = [emit |-> 0, msg |-> 0, brk |-> 0, lost |-> 0, failA |-> 0, failB |-> 0, ord |-> 0]
     /\ path = <<>> /\ last = [op |-> "init"]
 
 ----------------------------------------------------------------------------
@@ -160,10 +161,12 @@ EmitUnsub(c, t) ==
 EmitTerm(c) ==
     /\ bud.emit < MaxEmit
     /\ \E t \in TopicSet : <<c, t>> \in idx
-    /\ bud' = [bud EXCEPT !.emit = @ + 1]
     /\ idx' = {p \in idx : p[1] # c}
-    /\ LET gone == LocalTopics(idx) \ LocalTopics(idx') IN
-       \E ord \in Perms(gone) :
+    /\ LET gone == LocalTopics(idx) \ LocalTopics(idx')
+           multi == peerOn /\ Cardinality(gone) >= 2 IN
+       /\ multi => bud.ord < MaxOrd
+       /\ bud' = [bud EXCEPT !.emit = @ + 1, !.ord = IF multi THEN @ + 1 ELSE @]
+       /\ \E ord \in Perms(gone) :
           /\ Queue([i \in 1..Len(ord) |-> Ev("unsub", ord[i], 0)])
           /\ last' = [op |-> "term", c |-> c, ord |-> ord]
     /\ UNCHANGED aret /\ EmitFrame
@@ -206,7 +209,9 @@ Hello(mode) ==
          /\ view' = IF clean THEN {} ELSE view
          /\ applied' = IF clean THEN <<>> ELSE applied
          /\ sess' = IF mode = "ok" THEN [s1 EXCEPT !.est = TRUE] ELSE s1
-         /\ bud' = IF mode = "ok" THEN bud ELSE [bud EXCEPT !.lost = @ + 1]
+         /\ LET multi == client /\ clean /\ Cardinality(LocalTopics(idx)) >= 2 IN
+            /\ multi => bud.ord < MaxOrd
+            /\ bud' = [bud EXCEPT !.lost = IF mode = "ok" THEN @ ELSE @ + 1, !.ord = IF multi THEN @ + 1 ELSE @]
          /\ \E ord \in Perms(LocalTopics(idx)) :
               LET resync == [i \in 1..Len(ord) |-> Ev("sub", ord[i], 0)]
                             \o (IF aret # 0 THEN <<Ev("msg", "r", aret)>> ELSE <<>>)
@@ -391,6 +396,10 @@ NextReadValid == nr # -2 /\ (nr >= 0 => \E i \in 1..Len(q) : q[i].id = nr)
 \* C16: what B has applied in the current session is a duplicate-free, gap-free, in-order prefix of what A
 \* emitted in it (ids are given out consecutively from 0 at emission)
 NoGapNoDup == applied = [i \in 1..Len(applied) |-> i - 1]
+
+\* the names used in DESIGN.md: with consecutive ids both clauses are NoGapNoDup
+AppliedIsPrefix == NoGapNoDup
+NoDuplicate == \A i, j \in 1..Len(applied) : i # j => applied[i] # applied[j]
 
 \* nothing left to do without a new input
 Quiescent == /\ cst = "up" /\ link = "up" /\ c2s = <<>> /\ s2c = <<>> /\ nr = -1 /\ ~pend.on /\ ~zomb.on
